@@ -538,6 +538,8 @@ func checkC18(w *World, r *Report) {
 		}
 	}
 
+	r.Rule("R18.12", "a failed Startup (malformed address) is never followed by a Shutdown that dereferences what Startup had not yet assigned: a configuration error, never a crash", 1)
+	c18ShutdownAfterFailedStartupIsSafe(w, r)
 	r.Rule("R18.11", "a listener's forward address is dialled with its scheme as the network: a +tls forward is refused by the dialler, never resolved to its plain network and dialled in clear", 1)
 	ruleDirectDialUsesSchemeAsNetwork(w, r, "R18.11")
 	r.Rule("R18.10", "a server's Startup, which consumes the +tls marker of its configured address in place, runs at most once per server object (no retry loop on the same object)", 1)
